@@ -288,7 +288,8 @@ theorem flags_even (v : Nat) (g : GReq) :
 theorem encode_shape (v : Nat) (stream now : Int) (g : GReq) (bs : Bytes)
     (he : encodeReq v false stream now g = .ok bs) :
     ∃ r, bs = byteOf v :: byteOf (headerFlags v false g) :: r := by
-  unfold encodeReq at he
+  have he := (encodeReq_ok he).2
+  unfold encodeReq0 at he
   by_cases hnp : (payloadOf g).length > 0 ∧ v < 4
   · simp [hnp] at he
   · simp only [hnp, if_false] at he
